@@ -250,9 +250,12 @@ def misuse_rules(facts, rep):
             rows["unsupported"] = "bad" if o[0] != "Err" or rows["unsupported"] == "bad" else True
         if comp in (inv.get("Deflated"), inv.get("Bzip2"), inv.get("Zstd")):
             # the level must pass a fallible range check before the encoder is built: a `?` whose operand involves a range membership test
-            rc = [(a, v) for a, v in p["decisions"] if a.startswith("discr(Try::branch(") and _range_checked(facts, sw, a)]
-            if rc and rc[-1][1] == 1:
-                rows["level-out-of-range"] = rows["level-out-of-range"] + 1 if o[0] in ("ErrProp", "Err") and isinstance(rows["level-out-of-range"], int) else "bad"
+            # (spelled `clamp_opt(..).ok_or(..)?` or as a match on the Option -- possibly in a helper that E0 inlined here)
+            rc = [(a, v) for a, v in p["decisions"] if a.startswith("discr(") and _range_checked(facts, sw, a)]
+            last = [x for x in p["decisions"] if x[0] != "#iter"][-1:]
+            if rc and last == rc[-1:] and o[0] in ("ErrProp", "Err"):
+                # the path ends in an error right after the range test failed
+                rows["level-out-of-range"] = rows["level-out-of-range"] + 1 if isinstance(rows["level-out-of-range"], int) else "bad"
             elif not rc and o[0] == "Ok":
                 rows["level-out-of-range"] = "bad"   # a compressing arm that does not range-check its level
     for k, v in rows.items():
